@@ -442,13 +442,13 @@ Proof.
   apply IH; assumption.
 Qed.
 
-Lemma inv_recover s now : Inv s -> Inv (recover H s now).
+Lemma inv_recover s now oldest : Inv s -> Inv (recover H s now oldest).
 Proof.
   intros I. unfold recover.
   pose proof (inv_recover_fold (cmps s) s [] [] (inv_cmp _ I) I) as I1.
   destruct (fold_left (recover_one H) (cmps s) (s, [], [])) as [[s1 fin] val]. simpl in I1.
-  assert (I2 := inv_build_cache s1 now (now - 86400) I1).
-  set (s2 := build_cache s1 now (now - 86400)) in *. clearbody s2.
+  assert (I2 := inv_build_cache s1 now (Z.min now oldest - 86400) I1).
+  set (s2 := build_cache s1 now (Z.min now oldest - 86400)) in *. clearbody s2.
   assert (I3 : Inv (fold_left (fun acc o => let a := to_cache acc o ST_VALIDATED in set_fq (fq a ++ [o]) a) fin s2)).
   { clear I1. revert s2 I2. induction fin as [|o r IH]; intros s2 I2; simpl; auto. apply IH.
     eapply inv_same5; [|apply inv_to_cache; exact I2]. repeat split. }
@@ -995,3 +995,60 @@ Proof.
   match goal with |- context [if ?c then _ else _] => destruct c end; cbn [fst snd]; repeat split; reflexivity.
 Qed.
 End Recognise.
+
+(* ---- C09: "how many of these parts did you receive" ------------------------------ *)
+(* the answer is the length of the LEADING RUN of parts that are on record, each looked
+   up in the state the look-ups before it left behind: it stops at the first part that
+   is not on record and never counts one behind it *)
+Inductive counted : stage -> Z -> list part_req -> Z -> Prop :=
+| counted_nil : forall s now, counted s now [] 0
+| counted_stop : forall s now p r, snd (part_received s now p) = false -> counted s now (p :: r) 0
+| counted_more : forall s now p r k,
+    snd (part_received s now p) = true ->
+    counted (fst (part_received s now p)) now r k -> counted s now (p :: r) (k + 1).
+
+Theorem received_q_counts_leading_run : forall ps s now, counted s now ps (snd (received_q s now ps)).
+Proof.
+  induction ps as [|p r IH]; intros s now; [constructor|].
+  cbn [received_q]. destruct (part_received s now p) as [s1 ok] eqn:E.
+  destruct ok.
+  - specialize (IH s1 now). destruct (received_q s1 now r) as [s2 k] eqn:E2. cbn [snd] in *.
+    apply counted_more; rewrite E; cbn [fst snd]; [reflexivity|exact IH].
+  - cbn [snd]. apply counted_stop. rewrite E. reflexivity.
+Qed.
+
+(* when a part is counted: the name is not in the status cache and the companion of
+   exactly this version (hash, rename target, predecessor) records the range, or the
+   cache knows the name as this version (hash, rename target) in a state other than
+   "failed" - received completely, validated, held or put away *)
+Theorem part_received_true_on_record : forall s now p,
+  snd (part_received s now p) = true ->
+  let monthago := now - 30 * 86400 in
+  let when := if now <? p_time p then now else if p_time p <? monthago then monthago else p_time p in
+  let s0 := lock (p_name p) (build_cache s now when) in
+  (cache_obj s0 (p_name p) = None /\
+   exists c, alookup (p_name p) (cmps s0) = Some c /\
+     name_eqb (p_renamed p) (c_renamed c) = true /\ name_eqb (p_hash p) (c_hash c) = true /\
+     name_eqb (p_prev p) (c_prev c) = true /\
+     part_exists (c_parts c) (p_beg p) (p_end p) = true) \/
+  (exists o, cache_obj s0 (p_name p) = Some o /\
+     (f_state (obj s0 o) =? ST_FAILED) = false /\
+     name_eqb (f_hash (obj s0 o)) (p_hash p) = true /\
+     name_eqb (f_renamed (obj s0 o)) (p_renamed p) = true).
+Proof.
+  intros s now p Hc. cbv zeta. unfold part_received in Hc. cbv zeta in Hc.
+  match goal with |- context [lock (p_name p) ?b] => set (s0 := lock (p_name p) b) in * end.
+  destruct (cache_obj s0 (p_name p)) as [o|] eqn:Eo.
+  - right. exists o. split; [reflexivity|].
+    destruct (f_state (obj s0 o) =? ST_FAILED) eqn:E1; cbn [negb andb] in Hc; [cbn [snd] in Hc; discriminate|].
+    destruct (name_eqb (f_hash (obj s0 o)) (p_hash p)) eqn:E2; cbn [andb] in Hc; [|cbn [snd] in Hc; discriminate].
+    destruct (name_eqb (f_renamed (obj s0 o)) (p_renamed p)) eqn:E3; [|cbn [snd] in Hc; discriminate].
+    repeat split.
+  - left. split; [reflexivity|].
+    destruct (alookup (p_name p) (cmps s0)) as [c|] eqn:Ec; [|cbn [snd] in Hc; discriminate].
+    exists c. split; [reflexivity|].
+    destruct (name_eqb (p_renamed p) (c_renamed c)) eqn:E1; cbn [negb orb] in Hc; [|cbn [snd] in Hc; discriminate].
+    destruct (name_eqb (p_hash p) (c_hash c)) eqn:E2; cbn [negb orb] in Hc; [|cbn [snd] in Hc; discriminate].
+    destruct (name_eqb (p_prev p) (c_prev c)) eqn:E3; cbn [negb] in Hc; [|cbn [snd] in Hc; discriminate].
+    cbn [snd] in Hc. repeat split. exact Hc.
+Qed.
